@@ -423,3 +423,140 @@ func checkEnvelopeSites(c *Ctx, ruleLen, ruleNarrow, ruleFlag string, requestSid
 			"the synthesized envelope's compressed flag is not the conjunction of the message's own was-compressed bit and the outgoing compression: a frame can be flagged compressed while its bytes are not (or vice versa)")
 	}
 }
+
+// checkSynthFlagNonEmpty (defects D50, D51): where an adapter that only re-frames (it has no
+// message to re-encode) synthesises an envelope for an un-enveloped body, 'compressed' can only
+// mean 'the peer declared a compression'.  That is wrong for an empty body: zero bytes are not a
+// valid stream of any compression.  So a flag derived from 'compression cell != nil' must be
+// conjoined with 'length > 0' of the same envelope.
+func checkSynthFlagNonEmpty(c *Ctx, rule string, requestSide bool) {
+	p := c.P
+	_, envT := envTypes(p)
+	st := envT.Underlying().(*types.Struct)
+	var lengthF, comprF *types.Var
+	for i := 0; i < st.NumFields(); i++ {
+		switch N(st.Field(i)) {
+		case "length":
+			lengthF = st.Field(i)
+		case "compressed":
+			comprF = st.Field(i)
+		}
+	}
+	for _, s := range envelopeSites(p) {
+		if s.request != requestSide {
+			continue
+		}
+		u, ok := s.env.(*ssa.UnOp)
+		if !ok || u.Op != token.MUL {
+			continue
+		}
+		al, ok := u.X.(*ssa.Alloc)
+		if !ok || !localAggregate(al) {
+			continue
+		}
+		lenVals := FieldValuesAt(al, lengthF, s.call)
+		isLen := func(v ssa.Value) bool {
+			v = strip(v)
+			if ld, ok := v.(*ssa.UnOp); ok && ld.Op == token.MUL {
+				if fa, ok := ld.X.(*ssa.FieldAddr); ok && FieldOfAddr(fa) == lengthF && fa.X == ssa.Value(al) {
+					return true
+				}
+			}
+			for _, lv := range lenVals {
+				inner := lv
+				if cv, ok := lv.(*ssa.Convert); ok {
+					inner = cv.X
+				}
+				if sameQuantity(v, inner) || strip(v) == strip(inner) || sameQuantity(v, lv) {
+					return true
+				}
+				if a, b := bufferOfLen(v), bufferOfLen(inner); a != nil && b != nil && sameBuffer(a, b) {
+					return true
+				}
+			}
+			return false
+		}
+		isCellTest := func(v ssa.Value) bool {
+			bo, ok := v.(*ssa.BinOp)
+			return ok && bo.Op == token.NEQ && IsNilConst(bo.Y) && LoadedField(bo.X) != nil && strings.Contains(N(LoadedField(bo.X)), "ompression")
+		}
+		isWasCompressed := func(v ssa.Value) bool {
+			f := LoadedField(v)
+			return f != nil && N(f) == "wasCompressed"
+		}
+		isLenTest := func(v ssa.Value) bool {
+			bo, ok := v.(*ssa.BinOp)
+			if !ok {
+				return false
+			}
+			if k, isK := ConstInt(bo.Y); isK && k == 0 && (bo.Op == token.GTR || bo.Op == token.NEQ) {
+				return isLen(bo.X)
+			}
+			return false
+		}
+		ord := 0
+		for _, cv := range FieldValuesAt(al, comprF, s.call) {
+			// only flags that come from a compression cell (not from a decoded envelope)
+			fromCell, conj := false, true
+			var walk func(v ssa.Value, under []Fact, depth int)
+			walk = func(v ssa.Value, under []Fact, depth int) {
+				if depth > 4 {
+					conj = false
+					return
+				}
+				if b, isC := ConstBool(v); isC {
+					if b {
+						conj = false
+					}
+					return
+				}
+				if ph, ok := v.(*ssa.Phi); ok {
+					for i, e := range ph.Edges {
+						walk(e, FactsOnEdge(ph.Block().Preds[i], ph.Block()), depth+1)
+					}
+					return
+				}
+				has := func(pred func(ssa.Value) bool) bool {
+					for _, f := range under {
+						if f.Truth && pred(f.Cond) {
+							return true
+						}
+					}
+					return false
+				}
+				switch {
+				case isCellTest(v):
+					if has(isWasCompressed) {
+						return // a re-encoded message: the flag says what was really done to its bytes (C02.7 / C03.6)
+					}
+					fromCell = true
+					if !has(isLenTest) {
+						conj = false
+					}
+				case isLenTest(v):
+					if has(isCellTest) {
+						fromCell = true
+					} else {
+						conj = false
+					}
+				default:
+					// some other origin (decoded envelope, message state): not this rule's business
+					conj = conj && true
+				}
+			}
+			walk(cv, nil, 0)
+			if !fromCell {
+				continue
+			}
+			ord++
+			construct := "synthesized-flag-needs-payload"
+			if ord > 1 {
+				construct += "|#" + itoa(ord)
+			}
+			c.CountSite()
+			c.Check(conj, rule, FuncName(s.fn), construct, s.call.Pos(),
+				"the synthesized envelope is flagged compressed only when a compression was declared AND the payload is not empty",
+				"the envelope synthesized here is flagged compressed whenever the peer declared a compression, also for an empty body: zero payload bytes are not a valid compressed stream and the receiver fails to decompress them")
+		}
+	}
+}
